@@ -59,10 +59,6 @@ impl Inverter {
 } // verus!
 
 verus! {
-#[verifier::external_type_specification]
-#[verifier::reject_recursive_types(A)]
-pub struct ExExtendedGcd<A>(num_integer::ExtendedGcd<A>);
-
 /// Regcd outlining of `Integer::extended_gcd` on i64 (a provided method of a foreign trait). Assumed contract of Euclid's
 /// extended algorithm on non-negative operands (T-dep num-integer): Bezout identity, the result divides both operands,
 /// the first cofactor is bounded by the second operand. Negative operands are outside this contract.
